@@ -49,3 +49,18 @@ End CFB.
 
 Definition key_len_ok (k : list nat) : bool :=
   let n := List.length k in (n =? 16) || (n =? 24) || (n =? 32).
+
+(* The key streams of two block functions agree along a ciphertext: at every
+   feedback block, on as many bytes as the block of ciphertext has.  (Used to
+   characterise exactly when decryption under another key returns the plaintext.) *)
+Fixpoint streams_agree (E E' : list nat -> list nat) (fuel : nat) (prev c : list nat) : Prop :=
+  match fuel with
+  | 0 => True
+  | S f =>
+      match c with
+      | [] => True
+      | _ => let cb := firstn 16 c in
+             firstn (List.length cb) (E prev) = firstn (List.length cb) (E' prev)
+             /\ streams_agree E E' f cb (skipn 16 c)
+      end
+  end.
